@@ -9,6 +9,18 @@ CHECKS = {
    text="Whole-program static lock-order proof: every (site, live guard, acquired class) pair in every body reachable in each executable respects the ranks read from LOCK_ORDER_*, or is serialised by the SAITO gate per the property's escape clause. Held sets (rustc MaybeInitializedPlaces) and acquisitions (all paths, resolved calls/awaits, class hierarchy for dyn, closure/future creation) are over-approximated, so no report means no inversion in any schedule.",
    note="Trusted: rustc type check/MIR/Instance resolution/dataflow, the driver's MIR serialisation, the tokio acquisition-API and spawn tables. Assumes guards are not smuggled through dyn Any/raw pointers/fn pointers and external crates do not call back into workspace code holding workspace locks.",
    technique="static analysis: MIR dataflow (live lock guards) + interprocedural lock-acquisition summaries over the resolved call graph"),
+ "C03": dict(level="other",
+   text="Decides the lockstep and ownership structure without which the four views (UTXO set, by-height index, per-block flag, wallet) cannot describe the same chain: wind_chain (after an accepting validate) and unwind_chain (on every continuing path) update block ring, UTXO set, wallet and blockchain exactly once each with the same constant direction; a UtxoSet is mutated only by the wind/unwind primitives and two named exceptions, and those primitives are called only along wind/unwind; the longest-chain index and in_longest_chain are written only by the table's bodies. Does not decide exactness of wind/unwind for every fork shape and delivery order (value and history level). One genuine defect (the out-of-order branch of add_block rewrites the index without unwinding the ledger) is a known finding with an executed witness.",
+   note=TRUST,
+   technique="static analysis: exactly-once/must-pass path rules over the MIR CFG, type- and field-based who-may-mutate analysis, call-graph caller sets"),
+ "C04": dict(level="other",
+   text="Decides the insert/undo pairing of add_block: after the candidate block was inserted into the block ring and into Blockchain.blocks, no exit with AddBlockResult::FailedNotValid is reachable without passing a call whose callee (transitively) removes it from both. Necessary for 'stored blocks exactly as they were'. Explicitly NOT decided: termination of the Wind/Unwind loop in Blockchain::validate (needs a termination argument over the indices returned by wind_chain/unwind_chain, not a shape rule) and restoration of ledger state after a mid-reorganisation failure.",
+   note=TRUST,
+   technique="static analysis: path exploration to tagged exits over the MIR CFG + callee summaries (field removal, ring deletion)"),
+ "C05": dict(level="other",
+   text="Decides the gating and 'strictly longer' structure of fork choice: the candidate is treated as longest only behind a true is_new_chain_the_longest_chain and the reorganisation starts only when that flag is set; a failing golden-ticket density check leads only to (false, _); every accepting path of is_new_chain_the_longest_chain passes an edge implying len(new) > len(old) (or the first-block exit) and old burn fee <= new burn fee; the density rule reads MIN_GOLDEN_TICKETS_NUMERATOR/DENOMINATOR. Does not decide monotonic tip height, the window arithmetic or behaviour under delivery orders.",
+   note=TRUST,
+   technique="static analysis: must-pass-through with ordering-comparison orientation, verdict gating, constant provenance"),
  "C06": dict(level="other",
    text="Decides the structural part of the identity binding on every path: each accepting path of Block::validate (outside the SPV-mode and ghost exits) passes the equal edge of merkle_root vs the root recomputed from the carried transactions and the true edge of the creator-signature check; the signed bytes read merkle_root/creator/id/timestamp/previous_block_hash, pre_hash = hash(signed bytes), hash = hash(previous_block_hash ++ pre_hash); verify_block forwards a fetched block only on the equal edges of the advertised id/hash comparisons. Does not decide collision resistance of the merkle construction.",
    note=TRUST,
